@@ -21,7 +21,7 @@ CONDS = ["always", "tag==1", "tag==2", "off<3", "flg", "flg&&tag==1", "flg||tag=
 CONDALL = ["none", "tag==1", "off<3", "tag==1&req"]
 ATTRS = ["none", "req<100", "req!=0", "skip", "emit"]
 VIRTS = ["none", "x+1", "10-x", "alias", "nested_inv", "const", "bool", "max", "choice", "x+1_req", "cond_virt",
-         "alias_nested", "k+x", "x*2", "neg", "abs", "c2^31", "c2^32", "c2^63", "c-2^63", "c2^64-1", "c2^31-1", "cbool"]
+         "alias_nested", "k+x", "x*2", "neg", "abs", "c2^31", "c2^32", "c2^63", "c-2^63", "c2^64-1", "c2^31-1", "cbool", "alias_first", "x+1_first"]
 SREQS = ["none", "tag!=3", "len<=off"]
 PARAMS = ["none", "uint4", "int4", "enum"]
 
@@ -326,7 +326,13 @@ def program(ch, menu=None):
         v = A.Field("v", expr=("neg", X))
     elif vk == "abs":
         v = A.Field("v", expr=("?:", OP("<", X, C(0)), ("neg", X), X))
-    if v is not None:
+    elif vk == "alias_first":
+        v = A.Field("v", expr=X)
+    elif vk == "x+1_first":
+        v = A.Field("v", expr=OP("+", X, C(1)))
+    if v is not None and vk.endswith("_first"):
+        fields.insert(1, v)          # written before the field it names (forward reference)
+    elif v is not None:
         fields.append(v)
     wk = pick(["none", "v*2", "v+len"], "virt1")
     feats["virt1"] = wk
